@@ -96,7 +96,15 @@ def build_msg(m, dt):
                 "shorter": dt[:-2] + "\n", "other": "Delivered-To: someone@else.example\n", "crlf": dt[:-1] + "\r\n",
                 "folded": " " + dt}
     if k in variants:
-        hdr.insert(m["pos"] % (len(hdr) + 1), variants[k])
+        p = m["pos"] % (len(hdr) + 1)
+        if m.get("pad") is not None:
+            # the line starts at a chosen offset of the message (just before / on / after a multiple of the agent's 1024-byte read buffer)
+            L = m["pad"] - sum(len(x) for x in hdr[:p])
+            while L < 8:
+                L += 1024
+            hdr.insert(p, "X-Pad: " + "p" * (L - 8) + "\n")
+            p += 1
+        hdr.insert(p, variants[k])
     elif k == "twice":
         hdr.insert(m["pos"] % (len(hdr) + 1), dt)
         hdr.append(dt)
@@ -242,6 +250,7 @@ def model(w, home, patrn, dry, euid, qq=0):
         info["sel"] = "dd_nofile"
     else:
         name, cut, mode = sel
+        info["sel_name"] = name
         if euid != 0 and not (mode & 0o400):
             return stop(111, "file_unreadable")
         if mode & patrn:
@@ -665,6 +674,48 @@ def run_case_once(box, sc, stats, patrn):
         vf = fault_run(box, sc, w, evr, stats, patrn, sc["fsel"])
         if vf:
             return vf + " | " + json.dumps(vlib.jsonable(sc))[:1200]
+    if info.get("why") in ("file_refused", "forwardonly_refused") and info.get("sel_name"):
+        vs = swap_run(box, sc, w, exp, stats)
+        if vs:
+            return vs + " | " + json.dumps(vlib.jsonable(sc))[:1200]
+    return None
+
+
+def swap_run(box, sc, w, exp, stats):
+    """The owner replaces the refused control file by a harmless one (mv .qmail-x.new .qmail-x, mode 0600) in the instant after the delivery
+    agent opened it (added after seeded change C13-F). The instructions the agent holds are those of the file it opened, so the verdict about
+    THAT file stands: writable by others => 111 and no effect; executable => file and program lines refused."""
+    name = exp["info"]["sel_name"]
+    box.reset()
+    populate(box, w)
+    src = os.path.join(box.h.dir, "swap-src")
+    with open(src, "w") as f:
+        f.write("# harmless replacement\n")
+    os.chmod(src, 0o600)
+    st_ = os.stat(os.path.join(box.home, name))
+    os.chown(src, st_.st_uid, st_.st_gid)
+    before = lc.tree_listing(box.home)
+    rc, out, errb, t0, t1 = box.run(box.argv(w.user, w.local, w.dash, w.ext, w.host, w.sender, w.dd),
+                                    box.env(qq_exit=sc.get("qq", 0), VSHIM_SWAPOPEN="loc|%s|%s" % (name, src)))
+    if os.path.exists(src):
+        os.unlink(src)
+    if rc is None:
+        stats.inconclusive += 1
+        return None
+    ev = box.h.read_trace()
+    if not any(e["call"] == "SWAP" for e in ev):
+        stats.cls("swap_not_reached")
+        return None
+    stats.case(scenario={"base": vlib.digest(sc)[:12], "swap": name}, nontrivial=True, classes=["control_file_replaced_after_open"], key=(vlib.digest(sc), "swap"))
+    if rc != 111:
+        return ("the control file %s (refused: %s) was replaced by a harmless file right after the delivery agent opened it: exit %r, documented 111 "
+                "(the instructions in hand are those of the refused file)" % (name, exp["info"]["why"], rc))
+    if exp["info"]["why"] != "file_refused":
+        return None            # instructions in front of the refused line legitimately ran; only the status is judged
+    after = lc.tree_listing(box.home)
+    diff = [k for k in sorted(set(after.items()) ^ set(before.items())) if k[0] != name and not str(k[0]).endswith("/" + name)]
+    if diff:
+        return "the control file %s was replaced right after it was opened; exit 111 but the delivery had effects: %r" % (name, diff[:4])
     return None
 
 
@@ -817,6 +868,7 @@ msg_st = st.fixed_dictionaries({
     "dt": st.sampled_from(["none"] * 40 + ["exact", "exact", "exact", "case", "trail", "longer", "shorter", "other", "crlf", "folded", "twice",
                                           "body", "lastnonl"]),
     "pos": st.integers(0, 5),
+    "pad": st.sampled_from([None] * 5 + [985, 994, 1000, 1010, 1020, 1023, 1024, 1025, 2040, 2047, 3060, 4090, 8180]),
     "nohdr": st.sampled_from([False] * 7 + [True]),
     "sep": st.booleans(),
     "final_nl": st.sampled_from([True, True, True, False]),
